@@ -9,6 +9,8 @@
 (*  two-heads          more than one final response head for one request    *)
 (*  ctl-on-wire        CR, LF or NUL inside a header that reached the wire  *)
 (*  prefix-invalid     the bytes written no longer parse                    *)
+(*  accepted-lost      the accepted messages form a complete response but   *)
+(*                     the client never gets its end                        *)
 (* Applies while the request is alive (no disconnect delivered, client      *)
 (* present): after closure sends are no-ops by C03.                         *)
 (***************************************************************************)
@@ -39,6 +41,16 @@ Clauses(o, ev, o2, p) ==
          \o (IF ev.kind \in {"head", "info", "trailers", "push"} /\ Has(ev, "ctl") /\ ev.ctl
              THEN <<F("ctl-on-wire", o.cfg.carrier \o "/" \o p.call.type)>> ELSE <<>>)
          \o (IF ev.kind = "error" THEN <<F("prefix-invalid", o.cfg.carrier)>> ELSE <<>>)
+      [] ev.e = "quiescent" /\ ~o.winddown ->
+            \* the messages the automaton accepted (and the server accepted) amount to a complete response:
+            \* it has to be on the wire, whatever invalid or unspecified messages were interleaved
+            \* (the disconnect an application is handed after its last message is part of a normal ending)
+            LET Lost(a) == /\ App(o, a).kind = "http" /\ ~o.paused
+                           /\ Connected(o) /\ ~o.cerr /\ Req(o, a).known /\ ~Req(o, a).rst
+                           /\ a \in DOMAIN p.as /\ p.as[a].s = "CLOSED"
+                           /\ Wire(o, a).ends = 0 /\ Wire(o, a).rst = 0
+            IN IF \E a \in DOMAIN o.apps : Lost(a)
+               THEN <<F("accepted-lost", o.cfg.carrier)>> ELSE <<>>
       [] OTHER -> <<>>
 
 PStep(p, o, ev, o2) ==
